@@ -102,3 +102,30 @@ Example C01_example :
   nth_error t 35 = Some (EInstr Assert SMain 0 None) /\ nth_error t 36 = Some (EInstr Assert SMain 1 None) /\
   nth_error t 37 = Some (ECleanupBegin PAssert) /\ nth_error t 20 = Some ESandbox.
 Proof. vm_compute. repeat split. Qed.
+
+(** "The check predicate holds on the model" (built by a separate pass; proofs in Proofs/PredOnModelC01.v): the boolean
+    predicate the check evaluates on OBSERVED behaviour is true of the model's own output for all inputs, and
+    correspondence on an input implies the property on that input. *)
+From Exactly Require Import Proofs.PredOnModelC01.
+(** ** C01.  [obs_of_model tc] = (trace of [full_execute tc] filtered by [observable], status,
+    failing (phase, step), has_sds, has_atc).  For every test case: any number of instructions per
+    phase, any behaviour at any step (admissible for the step's return type or not), any status,
+    --act or not.  No side condition. *)
+Theorem C01_check_predicate_holds_on_model : forall tc, P_C01 tc (obs_of_model tc) = true.
+Proof. exact P_C01_holds_on_model. Qed.
+Print Assumptions C01_check_predicate_holds_on_model.
+
+Theorem C01_check_on_model : forall tc, check_c01 (C01Case tc (obs_of_model tc)) = (true, true).
+Proof. exact check_c01_on_model. Qed.
+Print Assumptions C01_check_on_model.
+
+(** the correspondence half being true forces the observation to be the model's *)
+Theorem C01_correspondence_determines_observation : forall c,
+  fst (check_c01 c) = true -> c_obs c = obs_of_model (c_tc c).
+Proof. exact corr_determines_obs. Qed.
+Print Assumptions C01_correspondence_determines_observation.
+
+Theorem C01_correspondence_implies_property : forall c, fst (check_c01 c) = true -> snd (check_c01 c) = true.
+Proof. exact corr_implies_property. Qed.
+Print Assumptions C01_correspondence_implies_property.
+
